@@ -187,7 +187,10 @@ def parse_puzz_link_url(url):
                 if i >= len(body):
                     raise ValueError("truncated compass clue")
                 if body[i] == "-":
-                    num[j] = int(body[i + 1 : i + 3], 16)
+                    digits = body[i + 1 : i + 3]
+                    if len(digits) != 2 or any(c not in "0123456789abcdef" for c in digits):
+                        raise ValueError("malformed two-digit compass clue")
+                    num[j] = int(digits, 16)
                     i += 3
                 else:
                     if body[i] != ".":
